@@ -12,6 +12,10 @@ from ..extract import (HEADER, ExtractError, Tr, ast_dump, body_of, const_int, c
 
 NAME = "LogFile"
 
+# (translation unit, clang node id of an `if` / `while` condition) -> name of the guard generated from it (filled by generate(); read by
+# vlib/gen/logfileskel.py so that both files always talk about the same site)
+SITES = {}
+
 
 def callee_name(call):
     ks = kids(call)
@@ -76,6 +80,7 @@ def nat_prop(name, params, body, doc):
 
 
 def generate():
+    SITES.clear()
     out = [HEADER % "muduo/base/LogFile.{h,cc}, FileUtil.cc, LogStream.h",
            "namespace MuduoVerif.Gen.LogFile\n"]
 
@@ -92,6 +97,7 @@ def generate():
         raise ExtractError("LogFile::append_unlocked no longer starts with file_->append(...)")
     t = Tr({"file_.writtenBytes()": "written", "rollSize_": "rollSize"}, consts, int_mode=True)
     by_size = one_if(au, "append_unlocked", "rollSize_")
+    SITES[("LogFile.cc", if_cond(by_size).get("id"))] = "rollBySize"
     out.append(int_prop("rollBySize", ["written", "rollSize"], unparen(t.expr(if_cond(by_size))),
                         "`LogFile::append_unlocked`: roll because of the size of the current file"))
     if not calls_named(kids(by_size)[1], "rollFile"):
@@ -105,6 +111,7 @@ def generate():
         raise ExtractError("append_unlocked: expected exactly one ++count_ in the else branch")
     t = Tr({"count_": "count", "checkEveryN_": "checkEveryN"}, consts, int_mode=True)
     chk = one_if(au, "append_unlocked", "count_", "checkEveryN_")
+    SITES[("LogFile.cc", if_cond(chk).get("id"))] = "checkDue"
     out.append(int_prop("checkDue", ["count", "checkEveryN"], unparen(t.expr(if_cond(chk))),
                         "`LogFile::append_unlocked`: the clock is consulted (after `++count_`)"))
     resets = [n for n in walk(kids(chk)[1]) if n.get("kind") == "BinaryOperator" and n.get("opcode") == "="
@@ -119,12 +126,14 @@ def generate():
                % unparen(t.expr(kids(per)[-1])))
     t = Tr({"thisPeriod_": "thisPeriod", "startOfPeriod_": "startOfPeriod"}, consts, int_mode=True)
     pc = one_if(au, "append_unlocked", "thisPeriod_", "startOfPeriod_")
+    SITES[("LogFile.cc", if_cond(pc).get("id"))] = "periodChanged"
     out.append(int_prop("periodChanged", ["thisPeriod", "startOfPeriod"], unparen(t.expr(if_cond(pc))),
                         "`LogFile::append_unlocked`: roll because a new period started"))
     if not calls_named(kids(pc)[1], "rollFile"):
         raise ExtractError("append_unlocked: the period test no longer guards rollFile()")
     t = Tr({"now": "now", "lastFlush_": "lastFlush", "flushInterval_": "flushInterval"}, consts, int_mode=True)
     fd = one_if(au, "append_unlocked", "lastFlush_", "flushInterval_")
+    SITES[("LogFile.cc", if_cond(fd).get("id"))] = "flushDue"
     out.append(int_prop("flushDue", ["now", "lastFlush", "flushInterval"], unparen(t.expr(if_cond(fd))),
                         "`LogFile::append_unlocked`: flush because of the interval"))
     if not calls_named(kids(fd)[1], "flush"):
@@ -135,6 +144,7 @@ def generate():
     ifs = find_ifs(rf)
     if len(ifs) != 1:
         raise ExtractError("rollFile: expected exactly one `if`, found %d" % len(ifs))
+    SITES[("LogFile.cc", if_cond(ifs[0]).get("id"))] = "rollAllowed"
     out.append(int_prop("rollAllowed", ["now", "lastRoll"], unparen(t.expr(if_cond(ifs[0]))),
                         "`LogFile::rollFile`: a new file is opened iff"))
     if not [n for n in walk(kids(ifs[0])[1]) if n.get("kind") == "CXXNewExpr"]:
@@ -150,6 +160,7 @@ def generate():
     whiles = stmts(ap, "WhileStmt")
     if len(whiles) != 1:
         raise ExtractError("AppendFile::append: expected exactly one loop")
+    SITES[("FileUtil.cc", kids(whiles[0])[0].get("id"))] = "appendContinues"
     t = Tr({"written": "written", "len": "len", "remain": "remain", "n": "n"})
     out.append(nat_prop("appendContinues", ["written", "len"], unparen(t.expr(kids(whiles[0])[0])),
                         "`AppendFile::append`: the loop continues while"))
@@ -170,6 +181,7 @@ def generate():
     out.append("/-- `AppendFile::append`: length of the write request -/\n"
                "def appendRequest (remain : Nat) : Nat := %s\n" % unparen(t.expr(a1)))
     short = one_if(ap, "AppendFile::append", "n", "remain")
+    SITES[("FileUtil.cc", if_cond(short).get("id"))] = "appendShort"
     out.append(nat_prop("appendShort", ["n", "remain"], unparen(t.expr(if_cond(short))),
                         "`AppendFile::append`: the error flag of the stream is consulted iff"))
     errs = [i for i in find_ifs(ap) if mentions(if_cond(i), "err")]
